@@ -23,7 +23,47 @@ def plan(tier, seed):
     # wire formats at extreme widths: keyword limits of hundreds to ~2000 bytes (SSE-1 / SSE-2 trapdoors and table
     # addresses become integers of thousands of digits), long labels and PRF outputs elsewhere; tiny databases
     specs.append({"name": "wide-parameters", "kind": "wide", "budget_s": 100 if tier == "quick" else 600})
+    # values that are random in the library (PRF outputs, os.urandom draws) and values the caller chooses (keywords,
+    # identifiers) forced to begin / end with byte patterns that content-sniffing code keys on (instrument.Steer)
+    for j in range(3 if tier == "quick" else 6):
+        specs.append({"name": f"steered-values-{j}", "kind": "steered", "index": j, "of": 3 if tier == "quick" else 6,
+                      "budget_s": 14 if tier == "quick" else 240})
     return specs
+
+
+def run_steered(spec, acc, ctx):
+    from vlib.instrument import Steer
+    rng = ctx.rng
+    i = spec["index"]
+    st = Steer(rng)
+    while not ctx.out_of_time():
+        scheme = gen.SCHEMES[i % len(gen.SCHEMES)]
+        i += 1
+        cid, cfg = gen.pick_config(scheme, rng, rng.randrange(40))
+        cls = rng.choice(["tiny", "block-edge", "pow2-edge", "zipf"])
+        scale = rng.choice([4, 8, 16])
+        try:
+            db, info = gen.make_db(rng, scheme, cfg, cls, scale)
+            db, n_kw, n_id = gen.magic_db(rng, scheme, cfg, db)
+        except ValueError:
+            continue
+        acc.count("steered.cases")
+        acc.count("steered.cases." + gen.SHORT[scheme])
+        acc.count("steered.magic_keywords", n_kw)
+        acc.count("steered.magic_identifiers", n_id)
+        st.arm()
+        seen_tokens = []
+        with st:
+            run_case(scheme, cid + ":steered", cfg, cls, db, acc, rng, wire_log=seen_tokens,
+                     extra_case=lambda: {"steered": True, "steered_values": list(st.steered_values)})
+        acc.count("steered.prf_outputs_forced", st.n_prf)
+        acc.count("steered.urandom_draws_forced", st.n_ur)
+        st.n_prf = st.n_ur = 0
+        blob = b"".join(seen_tokens)
+        for v, pat in zip(st.steered_values, st.patterns):
+            if v in blob:
+                acc.count("steered.forced_value_seen_on_the_wire")
+                acc.add("steered.patterns_on_the_wire", pat)
 
 
 WIDE = [("CGKO06.SSE2", {"param_l": 1800, "param_max_file_size": 64}), ("CGKO06.SSE2", {"param_l": 300}),
@@ -67,7 +107,7 @@ def run_wide(spec, acc, ctx):
             acc.add("distinct", sse.case_fp(scheme, cid, db))
 
 
-def run_case(scheme, cid, cfg, cls, db, acc, rng):
+def run_case(scheme, cid, cfg, cls, db, acc, rng, wire_log=None, extra_case=None):
     import schemes
     short = gen.SHORT[scheme]
     shadow = copy.deepcopy(db)
@@ -90,7 +130,7 @@ def run_case(scheme, cid, cfg, cls, db, acc, rng):
         acc.note(f"{short}: configuration does not survive JSON unchanged")
 
     def viol(sig, msg, extra=None):
-        acc.violation(f"{short}:{sig}", msg, dict(case, **(extra or {})))
+        acc.violation(f"{short}:{sig}", msg, dict(case, **(extra or {}), **(extra_case() if extra_case else {})))
 
     try:
         LB = schemes.load_sse_module(cfg_wire["scheme"])
@@ -105,6 +145,8 @@ def run_case(scheme, cid, cfg, cls, db, acc, rng):
 
     # ---- key
     key_bytes = key.serialize()
+    if wire_log is not None:
+        wire_log.append(key_bytes)
     acc.count("roundtrip.key." + short)
     try:
         key2 = LB.SSEKey.deserialize(key_bytes, cobjC)
@@ -117,6 +159,8 @@ def run_case(scheme, cid, cfg, cls, db, acc, rng):
         return True
     # ---- edb
     edb_bytes = edb.serialize()
+    if wire_log is not None:
+        wire_log.append(edb_bytes)
     acc.count("roundtrip.edb." + short)
     try:
         edbB = LB.SSEEncryptedDatabase.deserialize(edb_bytes, cobjB)
@@ -145,6 +189,8 @@ def run_case(scheme, cid, cfg, cls, db, acc, rng):
             except Exception as e:
                 viol(f"tokengen-raised:{who}:{exc_site(e)}", f"{type(e).__name__}: {e}", {"keyword": w})
                 return True
+            if wire_log is not None:
+                wire_log.append(tk_bytes)
             acc.count("roundtrip.token." + short)
             try:
                 tkB = LB.SSEToken.deserialize(tk_bytes, cobjB)
@@ -187,6 +233,10 @@ def run_shard(spec, acc, ctx):
     if spec.get("kind") == "wide":
         run_wide(spec, acc, ctx)
         return
+    if spec.get("kind") == "steered":
+        gen.MIXED_ID_SIZES = False
+        run_steered(spec, acc, ctx)
+        return
     gen.MIXED_ID_SIZES = True
     scheme = spec["scheme"]
     first = True
@@ -201,6 +251,19 @@ def run_shard(spec, acc, ctx):
 
 
 def replay(case, acc, ctx):
+    if case.get("steered"):
+        # forced values are drawn anew (keys are random in the library): repeat the case under Steer
+        from vlib.instrument import Steer
+        st = Steer(ctx.rng, p=0.3, cap=12)
+        for _ in range(150):
+            st.arm()
+            with st:
+                run_case(case["scheme"], case.get("cfg_id", "replay"), case["cfg"], case.get("db_class", "?"),
+                         case["db"], acc, ctx.rng)
+            acc.count("replayed")
+            if acc.n_violations:
+                break
+        return
     run_case(case["scheme"], case.get("cfg_id", "replay"), case["cfg"], case.get("db_class", "?"), case["db"], acc,
              ctx.rng)
     acc.count("replayed")
@@ -220,6 +283,8 @@ def finish(m, tier, seed):
                 inc.append(f"{short}: only {per[short][k]} {k} round-trips")
         if per[short]["configurations"] < 3:
             inc.append(f"{short}: fewer than 3 distinct configurations")
+    if c.get("steered.forced_value_seen_on_the_wire", 0) < 30:
+        inc.append("fewer than 30 forced values were observed in serialized keys, tokens or indexes")
     if c.get("setup_failed", 0) > 0.2 * max(1, c.get("cases", 0)):
         inc.append("too many setups failed")
     cov = {
@@ -234,6 +299,8 @@ def finish(m, tier, seed):
         "per_scheme": per,
         "pipeline_searches": c.get("pipeline.searches", 0),
         "wide_parameter_cases": c.get("wide.cases", 0),
+        "steered": {k[8:]: v for k, v in c.items() if k.startswith("steered.")},
+        "steered_patterns_seen_on_the_wire": len(m["sets"].get("steered.patterns_on_the_wire", [])),
         "setup_failed": c.get("setup_failed", 0),
     }
     return {"coverage": cov, "inconclusive": inc,
